@@ -230,17 +230,64 @@ Section Exec.
   Qed.
 End Exec.
 
-Create HintDb c02 discriminated.
-#[export] Hint Rewrite lookup_update foreign_enc_i foreign_enc_b foreign_enc_x method_enc_i method_enc_b method_enc_x
-  attribute_enc_i attribute_enc_x
-  subscript_enc_i_int subscript_enc_x_int subscript_enc_x_tuple binop_mul_q_x binop_mul_x_q binop_add_x_x binop_sub_x_x binop_div_x_x
-  binop_add_i_int binop_sub_i_i binop_add_x_q
-  ext_cmp_lt ext_cmp_ge ext_cmp_eq ext_cmp_ne ext_float_b ext_getitem_int_i ext_mul_q_x ext_mul_x_q ext_add_x ext_sub_x
-  ext_getitem_slice_x ext_setitem_slice_x ext_torch_min ext_min_dim ext_where
-  ext_dim_i ext_t_i ext_empty ext_detach_i ext_shape_i ext_device_i ext_dtype_i ext_dtype_x ext_add_i_int ext_sub_i ext_div_x
-  ext_any ext_to_b_long ext_to_b_float ext_to_i_float ext_full ext_arange_f ext_float_inf ext_full_like_inf ext_triu
-  ext_unsqueeze_x ext_unsqueeze_i ext_squeeze_x ext_expand_x ext_gather ext_eq_m ext_gt_m
-  ext_cmp_ge_x ext_add_x_q ext_setitem_int_x ext_getitem_int_x : c02.
+(* one rewriting step of the symbolic evaluation, dispatched on what the goal shows: a fact about tensor values inside
+   the interpreter, or the lemma of the ext02 call that is ready (only the lemmas of that name are tried) *)
+Ltac rw_ext_call f :=
+  lazymatch f with
+  | "compare" => first [rewrite ext_cmp_lt | rewrite ext_cmp_ge | rewrite ext_cmp_eq | rewrite ext_cmp_ne | rewrite ext_cmp_ge_x]
+  | "operator" => first [rewrite ext_mul_q_x | rewrite ext_mul_x_q | rewrite ext_add_x | rewrite ext_sub_x | rewrite ext_add_i_int
+                        | rewrite ext_sub_i | rewrite ext_div_x | rewrite ext_add_x_q]
+  | "$getitem" => first [rewrite ext_getitem_int_i | rewrite ext_getitem_slice_x | rewrite ext_getitem_int_x]
+  | "$setitem" => first [rewrite ext_setitem_slice_x | rewrite ext_setitem_int_x]
+  | "$method.float" => rewrite ext_float_b
+  | "torch.min" => rewrite ext_torch_min
+  | "$method.min" => rewrite ext_min_dim
+  | "torch.where" => rewrite ext_where
+  | "$method.dim" => rewrite ext_dim_i
+  | "$method.t" => rewrite ext_t_i
+  | "torch.empty" => rewrite ext_empty
+  | "$method.detach" => rewrite ext_detach_i
+  | "$attr.shape" => rewrite ext_shape_i
+  | "$attr.device" => rewrite ext_device_i
+  | "$attr.dtype" => first [rewrite ext_dtype_i | rewrite ext_dtype_x]
+  | "$method.any" => rewrite ext_any
+  | "$method.to" => first [rewrite ext_to_b_long | rewrite ext_to_b_float | rewrite ext_to_i_float]
+  | "torch.full" => rewrite ext_full
+  | "torch.arange" => rewrite ext_arange_f
+  | "float" => rewrite ext_float_inf
+  | "torch.full_like" => rewrite ext_full_like_inf
+  | "$method.triu" => rewrite ext_triu
+  | "$method.unsqueeze" => first [rewrite ext_unsqueeze_x | rewrite ext_unsqueeze_i]
+  | "$method.squeeze" => rewrite ext_squeeze_x
+  | "$method.expand" => rewrite ext_expand_x
+  | "$method.gather" => rewrite ext_gather
+  | "$method.eq" => rewrite ext_eq_m
+  | "$method.gt" => rewrite ext_gt_m
+  end.
+
+Ltac rw1 :=
+  match goal with
+  | |- context [foreign (enc_i ?t)] => rewrite (foreign_enc_i t)
+  | |- context [foreign (enc_b ?t)] => rewrite (foreign_enc_b t)
+  | |- context [foreign (enc_x ?t)] => rewrite (foreign_enc_x t)
+  | |- context [method (enc_i ?t) ?m ?a] => rewrite (method_enc_i t m a)
+  | |- context [method (enc_b ?t) ?m ?a] => rewrite (method_enc_b t m a)
+  | |- context [method (enc_x ?t) ?m ?a] => rewrite (method_enc_x t m a)
+  | |- context [attribute ?e (enc_i ?t) ?a ?st] => rewrite (attribute_enc_i e t a st)
+  | |- context [attribute ?e (enc_x ?t) ?a ?st] => rewrite (attribute_enc_x e t a st)
+  | |- context [subscript (enc_i ?t) (VInt ?i) ?st] => rewrite (subscript_enc_i_int t i st)
+  | |- context [subscript (enc_x ?t) (VInt ?i) ?st] => rewrite (subscript_enc_x_int t i st)
+  | |- context [subscript (enc_x ?t) (VTuple ?k) ?st] => rewrite (subscript_enc_x_tuple t k st)
+  | |- context [binop_eval Mul (VQ ?q) (enc_x ?t) ?st] => rewrite (binop_mul_q_x q t st)
+  | |- context [binop_eval Mul (enc_x ?t) (VQ ?q) ?st] => rewrite (binop_mul_x_q q t st)
+  | |- context [binop_eval Add (enc_x ?t) (enc_x ?u) ?st] => rewrite (binop_add_x_x t u st)
+  | |- context [binop_eval Sub (enc_x ?t) (enc_x ?u) ?st] => rewrite (binop_sub_x_x t u st)
+  | |- context [binop_eval Div (enc_x ?t) (enc_x ?u) ?st] => rewrite (binop_div_x_x t u st)
+  | |- context [binop_eval Add (enc_i ?t) (VInt ?c) ?st] => rewrite (binop_add_i_int t c st)
+  | |- context [binop_eval Sub (enc_i ?t) (enc_i ?u) ?st] => rewrite (binop_sub_i_i t u st)
+  | |- context [binop_eval Add (enc_x ?t) (VQ ?q) ?st] => rewrite (binop_add_x_q t q st)
+  | |- context [ext02 ?f _ _ _] => rw_ext_call f
+  end.
 
 (* ---- frames: a run that only writes the variables [ws] ------------------------------------------------------ *)
 Definition frame (ws : list string) (st0 st : state) : Prop :=
@@ -309,7 +356,7 @@ Ltac transport F :=
   end.
 
 (* ---- tactics of the symbolic runs (ext02 versions of C01.TieLib's) --------------------------------------- *)
-Ltac ev := repeat (progress (cbn; autorewrite with c02; look)).
+Ltac ev := repeat (progress (cbn; look; repeat rw1)).
 
 (* operations on tabulated arguments *)
 Ltac norm :=
